@@ -108,12 +108,12 @@ TM_NOTE = ("Trusted base: shuttle's scheduler interface and its Mutex/Condvar/mp
 
 CHECKS.update({
     "C22": ("tm", "model_checking", "stateless exploration of the real code under a preemption- and time-deviation-bounded scheduler (two-session scenarios), plus exhaustive session histories in fresh processes with the real timer",
-            "E5: scenarios S4 S5 S5b S8 S9 S10 (a session, idle time, a later session; earlier session fast, timed out, via solve or solve_all; later session via solve_all or next_solution, with variables or ground): every schedule within the bounds, "
-            "time allowed to pass at every query_stopped() check; the later session must give its stand-alone result. Sessions: every history of <= 2 sessions over 31 sessions (7 fast queries x 4 modes, 3 slow), "
-            "length 3 over a sub-alphabet (thorough: all with <= 1 slow session, length 4 fast), each in a fresh process with the real 1 s timer, compared with the reference answers.", TM_NOTE, "§2 E5, §2 E2 sessions, §3 C22"),
+            "E5: scenarios S4 S5 S5b S8 S9 S10 S13 S13b (a session, idle time, a later session; earlier session fast, timed out, via solve or solve_all; later session via solve_all or next_solution, with variables or ground, built after or before the earlier one ran): every schedule within the bounds, "
+            "time allowed to pass at every query_stopped() check; the later session must give its stand-alone result. Sessions: every history of <= 2 sessions over 35 sessions (8 fast queries x 4 modes, 3 on the slow query), "
+            "length 3 over a sub-alphabet (thorough: all with <= 1 slow session, length 4 over the sub-alphabet), each in a fresh process with the real 1 s timer, compared with the reference answers; every history of >= 2 sessions runs twice: queries constructed one by one, and all constructed up front.", TM_NOTE, "§2 E5, §2 E2 sessions, §3 C22"),
     "C23": ("tm", "model_checking", "stateless exploration of the real solve / solve_all / timer code under a preemption- and time-deviation-bounded scheduler with a virtual clock; real-time conformance runs",
             "E5: S1 fast solve, S2 fast solve_all, S3/S3b slow solve_all (deadline may pass at any check; one big or several small steps), S4 two sessions, S6 repeated solve with idle time, S7 slow solve, "
-            "S11/S12 a search truncated by the deadline inside not(...). Oracle: answers are a prefix of the reference sequence, complete iff no timeout message, a timeout message only if this call's own deadline passed, "
+            "S11/S12 a search truncated by the deadline inside not(...), S14/S15 a truncated search with a cheap later clause. Oracle: answers are a prefix of the reference sequence, complete iff no timeout message, a timeout message only if this call's own deadline passed, "
             "solve never reports an answer the reference does not have; no deadlock, no panic. Real-time runs with the genuine crate must land in the explored outcome sets.", TM_NOTE, "§2 E5, §3 C23"),
     "C24": ("miri", "exploration", "bounded-exhaustive corpus of call histories executed under Miri (Stacked Borrows and Tree Borrows, data-race detector on) as the per-execution UB monitor",
             "The corpus is enumerated from the E2 program families (cut at every position of every and/or shape with caller/sibling wrappers, not, nested and/or, recursion over lists, output, built-ins, non-ground facts), "
